@@ -450,11 +450,65 @@ def decode(s):
     return parts
 
 
-def run_model(defs_and_exprs, tag):
-    """defs_and_exprs: list of (oracle_term, expr using W); evaluated in shards that share nothing"""
-    exprs = ["(let W := %s in %s)" % (o, e) for o, e in defs_and_exprs]
-    outs = vlib.coq_eval(IMPORTS, "", exprs, tag=tag, shard=120)
-    return [decode(o) for o in outs]
+def run_chunks(chunks, tag, timeout=900):
+    """chunks: list of (oracle_term, [Gallina terms of type `list N` using W]).  One coqc process per chunk,
+    run in parallel; returns, per chunk, the decoded outputs.  (vlib.coq_eval shares one definition text among
+    all shards; here every chunk has its own small oracle, which keeps table lookups and parsing cheap.)"""
+    import os
+    import subprocess
+    os.makedirs(vlib.CASES, exist_ok=True)
+    files = []
+    for k, (oracle, exprs) in enumerate(chunks):
+        path = os.path.join(vlib.CASES, "%s_%d_%d.v" % (tag, os.getpid(), k))
+        lines = ["From Coq Require Import List NArith ZArith Bool.", "Import ListNotations."]
+        lines += ["Require Import %s." % m for m in IMPORTS]
+        lines += ["Open Scope N_scope.", "Set Printing Width 1000000. Set Printing Depth 1000000.",
+                  "Definition W : oracle := %s." % oracle]
+        lines += ["Eval vm_compute in (%d, %s)." % (i, e) for i, e in enumerate(exprs)]
+        with open(path, "w") as f:
+            f.write("\n".join(lines) + "\n")
+        files.append(path)
+    results = [None] * len(files)
+    try:
+        running, idx = [], 0
+        while idx < len(files) or running:
+            while idx < len(files) and len(running) < vlib.NPROC:
+                p = subprocess.Popen(["timeout", str(timeout), "coqc", "-Q", vlib.COQ, "HyV", "-w",
+                                      "-notation-overridden,-deprecated,-ambiguous-paths", files[idx]],
+                                     stdout=subprocess.PIPE, stderr=subprocess.PIPE, text=True, cwd=vlib.CASES)
+                running.append((idx, p))
+                idx += 1
+            i, p = running.pop(0)
+            o, e = p.communicate()
+            if p.returncode != 0:
+                raise RuntimeError("model evaluation failed on %s:\n%s" % (files[i], (o + e)[-3000:]))
+            outs = []
+            for c in re.split(r"^\s*= ", o, flags=re.M)[1:]:
+                c = re.sub(r"\s+", " ", c).strip()
+                m = re.match(r"\((\d+), (.*)\)\s*:", c)
+                if not m:
+                    raise RuntimeError("cannot parse coq output: " + c[:300])
+                outs.append(decode(m.group(2)))
+            if len(outs) != len(chunks[i][1]):
+                raise RuntimeError("model evaluation: %d results for %d cases" % (len(outs), len(chunks[i][1])))
+            results[i] = outs
+    finally:
+        for f in files:
+            base = f[:-2]
+            for ext in (".v", ".vo", ".vok", ".vos", ".glob"):
+                try:
+                    os.remove(base + ext)
+                except OSError:
+                    pass
+            try:
+                os.remove(os.path.join(os.path.dirname(f), "." + os.path.basename(base) + ".aux"))
+            except OSError:
+                pass
+    return results
+
+
+def chunked(items, n):
+    return [items[i:i + n] for i in range(0, len(items), n)]
 
 
 # ------------------------------------------------------------------ evaluation environment
@@ -647,3 +701,166 @@ def nan_keys_repeat(x):
     if sum(1 for k in keys if nanny(k)) > 1:
         return True
     return any(nan_keys_repeat(i) for i in items)
+
+
+# ------------------------------------------------------------------ generators: Hy source texts over every syntax form (C25)
+
+SYM_START = list("abcxyzABC_*+-/<>=!?$%&^|@") + ["\xe9", "λ", "\U0001F600", "\\"]
+SYM_REST = SYM_START + list("0123456789.:#,")
+SYMBOLS = ["a", "b", "foo", "x1", "-", "+", "*", "...", ".", "..", "None", "True", "setv", "@a", "@", "a-b", "_5", "e5", "1e", "0x",
+           "j", "J", "inf", "nan", "NaNx", "quote", "unquote", "unquote-splice", "quasiquote", "unpack-iterable",
+           "unpack-mapping", "annotate", "a!", "!r", "=", "a=", "b", "f", "r", "t", "rf", "ℵ", "<class"]
+NUMBERS = ["0", "7", "-3", "+5", "1_000", "1,000", "0x1F", "0o17", "0b101", "007", "1.5", "-0.0", "1e5", "1E-3", ".5", "5.",
+           "1_0.2_5", "NaN", "Inf", "-Inf", "+Inf", "1e400", "2j", "-1.5j", "1+2j", "1e3-2e-2j", "NaN+Infj", "NaNj", "-Infj",
+           "123456789012345678901234567890", "0.1", "1e22", "1e16", "5e-324"]
+
+
+def gen_symbol(rng):
+    if rng.random() < 0.6:
+        return rng.choice(SYMBOLS)
+    n = rng.randrange(1, 5)
+    return rng.choice(SYM_START) + "".join(rng.choice(SYM_REST) for _ in range(n - 1))
+
+
+def gen_dotted(rng):
+    parts = [gen_symbol(rng).replace(".", "d") or "p" for _ in range(rng.randrange(2, 4))]
+    head = rng.choice(["", "", ".", "..", "..."])
+    return head + ".".join(parts)
+
+
+STR_SRC = (list("abcXYZ019 _-+.:!?@#$%^&*=<>/|,()[];~`'") + ["\\\\", '\\"', "\\'", "\\n", "\\t", "\\r", "\\0", "\\x41", "\\xff",
+           "\\u20ac", "\\U0001F600", "\\N{BULLET}", "\\N{LATIN SMALL LETTER A}", "\\a", "\\b", "\\f", "\\v", "\\101", "\\7",
+           "\\\n", "\n", "\r", "\r\n", "\t", "\x00", "\x7f", "\x85", "\xa0", "\xe9", " ", "€", "\U0001F600", "N", "x"])
+
+
+def gen_str_body(rng, braces=False, maxlen=6):
+    out = []
+    for _ in range(rng.randrange(0, maxlen + 1)):
+        r = rng.random()
+        if braces and r < 0.15:
+            out.append(rng.choice(["{{", "}}"]))
+        elif not braces and r < 0.1:
+            out.append(rng.choice("{}"))
+        else:
+            out.append(rng.choice(STR_SRC))
+    return "".join(out)
+
+
+def gen_raw_body(rng, delim, braces=False, maxlen=6):
+    pool = list("abc \n\t\\\"'N{}[]();#") + ["]", "]" + delim[:1], "\r\n", "\xe9", "€"]
+    out = []
+    for _ in range(rng.randrange(0, maxlen + 1)):
+        c = rng.choice(pool)
+        if c in "{}":
+            c = c + c if braces else c
+        out.append(c)
+    s = "".join(out)
+    if ("]" + delim + "]") in s or s.endswith("]") or any(s.endswith(("]" + delim)[:k]) for k in range(1, len(delim) + 2)):
+        s = s.replace("]", ")") + "."
+    return s
+
+
+def gen_field(rng, depth, raw, spec_depth=0):
+    """the text of one replacement field, braces included"""
+    ws = lambda: rng.choice(["", "", " ", "  ", "\n"])
+    form = gen_form(rng, depth - 1, in_field=True)
+    out = "{" + ws() + form
+    need_space = True
+    r = rng.random()
+    if r < 0.2:
+        out += ws() + "=" + ws()
+        need_space = False
+    if rng.random() < 0.4:
+        out += (" " if need_space else ws()) + "!" + rng.choice("rsarsaz ")
+        need_space = False
+        out += ws()
+    if rng.random() < 0.45:
+        out += (" " if need_space else "") + ":"
+        n = rng.randrange(0, 4)
+        for _ in range(n):
+            if rng.random() < 0.45 and spec_depth < 2:
+                out += gen_field(rng, depth - 1, raw, spec_depth + 1)
+            else:
+                out += rng.choice([">", "<5", "^10", ".3f", " ", "x", "{{", "}}", "#", "\\\\" if not raw else "\\", "\n", "\\x41" if not raw else "A", "é"])
+        out += "}"
+    else:
+        out += (" " if need_space and form[-1:] not in ")]}\"" else "") + "}" if rng.random() < 0.5 else " }"
+    return out
+
+
+def gen_fstring(rng, depth):
+    r = rng.random()
+    if r < 0.25:
+        delim = rng.choice(["f", "f-x", "f-", "f-ab"])
+        body = ""
+        for _ in range(rng.randrange(0, 4)):
+            body += gen_raw_body(rng, delim, braces=True, maxlen=3) if rng.random() < 0.6 else gen_field(rng, depth, True)
+        if ("]" + delim + "]") in body:
+            body = body.replace("]" + delim + "]", "")
+        lead = rng.choice(["", "", "\n", "\n\n", "\r\n"])
+        return "#[" + delim + "[" + lead + body + "]" + delim + "]"
+    prefix = rng.choice(["f", "f", "f", "rf", "fr", "t", "rt"])
+    raw = "r" in prefix
+    body = ""
+    for _ in range(rng.randrange(0, 4)):
+        if rng.random() < 0.55:
+            s = gen_str_body(rng, braces=True, maxlen=3)
+            if raw:
+                s = s.replace('"', "'").replace("\\", "/")
+            body += s.replace('"', '\\"') if not raw else s
+        else:
+            body += gen_field(rng, depth, raw)
+    return prefix + '"' + body + '"'
+
+
+def gen_form(rng, depth, in_field=False):
+    """Hy source text of one form"""
+    r = rng.random()
+    if depth <= 0 or r < 0.3:
+        k = rng.random()
+        if k < 0.3:
+            return gen_symbol(rng)
+        if k < 0.4:
+            return ":" + (gen_symbol(rng).replace(".", "") if rng.random() < 0.9 else "")
+        if k < 0.55:
+            return rng.choice(NUMBERS)
+        if k < 0.62:
+            return gen_dotted(rng)
+        if k < 0.8:
+            body = gen_str_body(rng).replace('"', '\\"')
+            p = rng.choice(["", "", "", "r", "b", "br", "rb"])
+            if "r" in p:
+                body = body.replace("\\", "/")
+            if "b" in p:
+                body = "".join(c if ord(c) < 128 else "?" for c in body)
+                body = re.sub(r"\\[NuU]", "n", body)
+            return p + '"' + body + '"'
+        if k < 0.9:
+            delim = rng.choice(["", "", "x", "==", "a-b", "f", "t", "ft", "f x"])
+            lead = rng.choice(["", "", "\n", "\n\n", "\r\n", "\r"])
+            if delim == "f" or delim.startswith("f-"):
+                delim = "g" + delim
+            return "#[" + delim + "[" + lead + gen_raw_body(rng, delim) + "]" + delim + "]"
+        return gen_fstring(rng, depth)
+    sub = lambda: gen_form(rng, depth - 1)
+    sep = lambda: rng.choice([" ", " ", " ", "  ", "\n", " ;c\n", " #_ junk "])
+    n = rng.randrange(0, 4)
+    if r < 0.62:
+        o, c = rng.choice([("(", ")"), ("(", ")"), ("[", "]"), ("{", "}"), ("#{", "}"), ("#(", ")")])
+        items = [sub() for _ in range(n)]
+        if o == "(" and rng.random() < 0.35:
+            head = rng.choice([".", "quote", "unquote", "unquote-splice", "quasiquote", "unpack-iterable", "unpack-mapping",
+                               "annotate", "..", "...", "None"])
+            items = [head] + [gen_symbol(rng) if rng.random() < 0.6 else x for x in items]
+        return o + sep().join(items) + c
+    if r < 0.8:
+        p = rng.choice(["'", "`", "~", "~@", "#* ", "#** ", "~ ", "' ", "#*  "])
+        s = sub()
+        if p == "~" and s.startswith("@"):
+            p = "~ "
+        return p + s
+    if r < 0.84:
+        return "#^ " + sub() + " " + sub()
+    if r < 0.92:
+        return gen_fstring(rng, depth)
+    return gen_dotted(rng)
